@@ -9,6 +9,9 @@
    payload, signature), splices the variants, cuts them at structural boundaries (thorough: at every byte of the
    canonical encodings), runs the real fast paths through the verif export shim and compares with full decoding;
    TLC evaluates the property and the model's outcome per record.
+3. fstree/head.go: objects whose ID + signature + header grow up to the maximum (> 16 KiB) are stored in a real
+   FSTree plain and as legacy zstd-compressed files (separate and combined), and Head / GetStream / ReadHeader /
+   ReadObjectParts are compared with full decoding (Get); the model's head buffer (HeadRead) must predict success.
 The "never panics on ARBITRARY fuzzed bytes" half is NOT decided by this technique (see level_note); panics on the
 structured inputs above would be reported."""
 import json, os
@@ -26,6 +29,10 @@ def run(ck):
     binp = ck.gobuild("ec")
     recs = os.path.join(ck.tmp, "wire.ndjson")
     ck.harness(binp, ["wire", recs], timeout=1800)
+    fsrecs = os.path.join(ck.tmp, "wirefs.ndjson")
+    ck.harness(binp, ["wirefs", fsrecs], timeout=1800)
+    with open(recs, "a") as out:
+        out.write(open(fsrecs).read())
     data = vkit.read_ndjson(recs)
     if ck.replay:
         rp = json.load(open(ck.replay))["replay"]
@@ -46,6 +53,12 @@ def run(ck):
                     outcomes[key] = outcomes.get(key, 0) + 1
     ck.setcov("outcomes", outcomes)
     ck.setcov("panics_on_structured_inputs", sum(1 for r in data for x in r["runs"] if x["panic"]))
+    fsd = [r for r in data if r["level"] == "fs"]
+    ck.setcov("fstree_head_objects", len(fsd))
+    ck.setcov("fstree_max_non_payload_bytes", max([r["np"] for r in fsd] + [0]))
+    ck.setcov("fstree_compressed_streamed", sum(1 for r in fsd if r["compressed"] and r["stored"] > 20480))
+    if not ck.replay and (not fsd or max(r["np"] for r in fsd) <= 16384 or not any(r["compressed"] and r["stored"] > 20480 and r["np"] > 16384 for r in fsd)):
+        raise vkit.Infra("vacuous fstree run: no compressed streamed object with non-payload part above 16 KiB")
     ck.setcov("rule", "TraceWire.tla: no panic; encodings of objects: fast paths succeed on the complete message and their results "
                       "decode to the same ID/signature/header/payload prefix/length/type/parent as full decoding, truncations fail or "
                       "stay consistent, bounds never leave the buffer; outcomes equal the operators of Wire.tla")
@@ -68,7 +81,9 @@ def run(ck):
         brief = {"level": rec["level"], "variant": rec["variant"], "total": rec["total"], "enc": rec["enc"], "fullOK": rec["fullOK"]}
         if v.kind == "invariant" and v.name == "PropOnRecords":
             # name the failing run for the message (diagnosis only; the verdict is TLC's)
-            culprit = None
+            culprit = rec.get("fs") if rec["level"] == "fs" else None
+            if culprit:
+                brief.update({"compressed": rec["compressed"], "combined": rec["combined"], "non_payload_bytes": rec["np"], "stored": rec["stored"]})
             for x in rec["runs"]:
                 if x["panic"] or (rec["enc"] and rec["fullOK"] and any((not x[k]["err"]) and not x[k]["agree"] for k in x if isinstance(x[k], dict))) \
                         or (rec["enc"] and rec["fullOK"] and x["cut"] == rec["total"] and any(x[k]["err"] for k in x if isinstance(x[k], dict))):
